@@ -220,6 +220,19 @@ func wApplyDerive(spec *quic.QUICSpec, d *WDerive) error {
 			spec.SuppressTransportParameters = append(spec.SuppressTransportParameters, d.DupSuppressed)
 		}
 	}
+	if d.CIDLimit > 0 {
+		if q := wQTPExt(spec); q != nil {
+			found := false
+			for i, tp := range q.TransportParameters {
+				if tp.ID() == 0x0e {
+					q.TransportParameters[i], found = tls.ActiveConnectionIDLimit(d.CIDLimit), true
+				}
+			}
+			if !found {
+				q.TransportParameters = append(q.TransportParameters, tls.ActiveConnectionIDLimit(d.CIDLimit))
+			}
+		}
+	}
 	if d.ISCID != "" {
 		if q := wQTPExt(spec); q != nil {
 			b, _ := hex.DecodeString(d.ISCID)
